@@ -13,9 +13,13 @@ PROP = dict(
          "message is decoded and verified (own key, foreign key, wrong-length key) on both sides, plus two single-bit "
          "mutations of the body re-verified and re-decoded on both sides; direct oracles with real Ed25519: own key accepted, "
          "3 foreign keys rejected, 3..8 single-bit flips anywhere in the signed body tree rejected, extracted messages and "
-         "decoded fields equal the requested ones, over-limit sends refused. "
+         "decoded fields equal the requested ones, over-limit sends refused; send modes 0,1,2,3,64,128,255 and random on "
+         "every construction path (Send via Sendable.ToInternal, CreateMessageBody, RawSend with RawMessage): extracted modes = "
+         "REQUESTED modes (the mode ToInternal returns is under test, not trusted). "
          "non-trivial = distinct (version, key, message count, seqno, valid-until) case",
     trusted_base=[
+        "the highload dictionary is the shared model lean/TongoModel/Hashmap.lean (C05: entries ordered by key bits, canonical "
+        "shortest edge labels); its round trip is used through the C05 theorems encode_sorted_tree / decode_any_valid",
         "translator WalletConsts (harness/cmd/extract, go/ast): DefaultSubWallet, MainnetGlobalID, the v5 opcodes, the action tag, the Version enumeration and maxMessageNumber() literals are re-read from wallet/*.go on every run and stated as decide-d obligations against the model (lean/TongoGen/WalletConsts.lean)",
         "hand model lean/TongoModel/{WalletMsg,CellRead,CellOrd}.lean tied to wallet/*.go, ton/block.go by bit-exact "
         "correspondence of body cell, external message cell, digest, decoder outputs and verdicts on every run",
@@ -40,7 +44,7 @@ PROP = dict(
                "that fit a cell (highload: the dictionary with keys 0..n-1 always builds, n <= 254); the digest signed and the digest verified are the representation hash of exactly the cell "
                "holding ids, expiry, seqno, [op] and the messages; the wallet's own key verifies (signature correctness "
                "assumed); decoding the built external message returns the same ids, seqno, expiry and messages with modes in "
-               "order (highload: a full encode/decode round trip of the Patricia-tree dictionary is proved for key intervals); representations of ordinary cells are injective in bits and ref hashes, so any change of the signed "
+               "order (highload: through the C05 dictionary theorems on the shared Hashmap model); representations of ordinary cells are injective in bits and ref hashes, so any change of the signed "
                "body changes the digest unless SHA-256 collides; over-limit sends are refused before anything is sent. Two "
                "defects found by the check (empty highload payload undecodable, v5 beta unverifiable) are repaired in the "
                "code; their negations on the old model are theorems. The model is tied to the Go code by bit-exact "
